@@ -158,7 +158,7 @@ bool Units::UnitsImpl::isBaseUnitWithHistory(History &history, const UnitsConstP
     return (mUnits->unitCount() == 0) && standardUnitCheck;
 }
 
-bool Units::UnitsImpl::performTestWithHistory(History &history, const UnitsConstPtr &units, TestType type) const
+bool Units::UnitsImpl::performTestWithHistory(History &history, const UnitsConstPtr &units, TestType type, std::vector<const Units *> *visiting) const
 {
     ModelPtr model;
     if (mUnits->isImport()) {
@@ -182,8 +182,19 @@ bool Units::UnitsImpl::performTestWithHistory(History &history, const UnitsConst
         return importedUnits->pFunc()->performTestWithHistory(history, importedUnits, type);
     }
 
+    // Ordinary units may reference each other in a cycle: such units are not defined, but there is nothing to resolve in them.
+    std::vector<const Units *> localVisiting;
+    if (visiting == nullptr) {
+        visiting = &localVisiting;
+    }
+    if (std::find(visiting->begin(), visiting->end(), mUnits) != visiting->end()) {
+        return type == TestType::RESOLVED;
+    }
+    visiting->push_back(mUnits);
+
+    bool result = true;
     model = std::dynamic_pointer_cast<libcellml::Model>(mUnits->parent());
-    for (size_t unitIndex = 0; unitIndex < mUnits->unitCount(); ++unitIndex) {
+    for (size_t unitIndex = 0; result && (unitIndex < mUnits->unitCount()); ++unitIndex) {
         std::string reference = mUnits->unitAttributeReference(unitIndex);
         if (isStandardUnitName(reference)) {
             continue;
@@ -192,18 +203,17 @@ bool Units::UnitsImpl::performTestWithHistory(History &history, const UnitsConst
         if (model != nullptr) {
             auto childUnits = model->units(reference);
             if (childUnits != nullptr) {
-                if (!childUnits->pFunc()->performTestWithHistory(history, childUnits, type)) {
-                    return false;
-                }
+                result = childUnits->pFunc()->performTestWithHistory(history, childUnits, type, visiting);
             } else if (type == TestType::DEFINED) {
-                return false;
+                result = false;
             }
         } else if (type == TestType::DEFINED) {
-            return false;
+            result = false;
         }
     }
+    visiting->pop_back();
 
-    return true;
+    return result;
 }
 
 /**
